@@ -561,19 +561,25 @@ def c16(tier, seed):
     # deterministic families (independent of the seed)
     # departure: the participant of the matched remote endpoint falls silent; after its lease both the matched list and the
     # status of the local writer / reader must show the loss
-    for rel in ("RELIABLE", "BEST_EFFORT"):
+    # (the departing participant has one, two or three matched endpoints; it falls silent or is ignored)
+    for rel, nrem, how in (("RELIABLE", 1, "silence"), ("BEST_EFFORT", 1, "silence"), ("RELIABLE", 2, "silence"), ("RELIABLE", 3, "silence"),
+                           ("RELIABLE", 2, "ignore"), ("BEST_EFFORT", 3, "ignore"), ("RELIABLE", 1, "ignore")):
         for local in ("writer", "reader"):
             steps = [{"do": "participant"}, {"do": "participant"}, {"do": "participant"}]
             if local == "writer":
-                steps += [{"do": "create_writer", "part": 0, "qos": q(rel=rel)}, {"do": "create_reader", "part": 2, "qos": q(rel=rel)},
-                          {"do": "create_reader", "part": 1, "qos": q(rel=rel)}]
+                steps += [{"do": "create_writer", "part": 0, "qos": q(rel=rel)}] + [{"do": "create_reader", "part": 2, "qos": q(rel=rel)} for _ in range(nrem)]
+                steps += [{"do": "create_reader", "part": 1, "qos": q(rel=rel)}]
             else:
-                steps += [{"do": "create_writer", "part": 2, "qos": q(rel=rel)}, {"do": "create_reader", "part": 0, "qos": q(rel=rel)},
-                          {"do": "create_writer", "part": 1, "qos": q(rel=rel)}]
+                steps += [{"do": "create_writer", "part": 2, "qos": q(rel=rel)}, {"do": "create_reader", "part": 0, "qos": q(rel=rel)}]
+                steps += [{"do": "create_writer", "part": 2, "qos": q(rel=rel)} for _ in range(nrem - 1)]
+                steps += [{"do": "create_writer", "part": 1, "qos": q(rel=rel)}]
             obs = [{"do": "pub_status", "w": 0}] if local == "writer" else [{"do": "sub_status", "r": 0}]
-            steps += [{"do": "sleep", "ms": 1200}] + obs + [{"do": "silence_participant", "part": 2}, {"do": "sleep", "ms": 101500}, {"do": "sleep", "ms": 1200}] + obs
+            if how == "silence":
+                steps += [{"do": "sleep", "ms": 1200}] + obs + [{"do": "silence_participant", "part": 2}, {"do": "sleep", "ms": 101500}, {"do": "sleep", "ms": 1200}] + obs
+            else:
+                steps += [{"do": "sleep", "ms": 1200}] + obs + [{"do": "ignore_participant", "part": 0, "target": 2}, {"do": "sleep", "ms": 1200}] + obs
             steps += [{"do": "sleep", "ms": 1500}] + obs
-            out.append({"name": f"C16-departure-{local}-{rel[:3]}", "family": "departure", "seed": 1, "frag": 1344, "steps": steps, "max_steps": 8000000})
+            out.append({"name": f"C16-departure-{local}-{rel[:3]}-{nrem}-{how}", "family": "departure", "seed": 1, "frag": 1344, "steps": steps, "max_steps": 8000000})
     # lossy: the same kind of random histories while the discovery traffic is lossy, duplicated and reordered; only the final
     # matched sets (after heal and a settle time) are determined by the history
     nl = 15 if tier == "quick" else 200
